@@ -244,13 +244,17 @@ bool Uci::moves_command(std::istringstream& istream)
 void start_searching(Uci* uci)
 {
     uint64_t key = PolyglotBook::hash(uci->position);
+    Move move = NO_MOVE;
     if (uci->polyglot.contains(key))
     {
-        Move move = uci->polyglot_sample_random_move 
+        move = uci->polyglot_sample_random_move 
             ? uci->polyglot.get_random_move(key, uci->position)
             : uci->polyglot.get_best_move(key, uci->position);
-        sync_cout << "bestmove " << uci->position.uci(move) << sync_endl;
     }
+
+    // the book may know the position without offering a playable move
+    if (move != NO_MOVE)
+        sync_cout << "bestmove " << uci->position.uci(move) << sync_endl;
     else
         uci->search->go();
 }
